@@ -58,7 +58,17 @@ def _do_run(args):
             plan = mod.gen_plan(payload, tier)
         else:
             plan = payload
-        res = mod.run_plan(plan)
+        if getattr(mod, "ISOLATE", True) and not os.environ.get("VERIF_NO_ISOLATE"):
+            # every run starts from pristine process state (module-level caches, patched globals):
+            # the run executes in a forked child of this (never-used) worker and reports over a pipe
+            from .proc import run_child
+            msgs, code = run_child(lambda report: report({"result": mod.run_plan(plan)}),
+                                   timeout=getattr(mod, "RUN_TIMEOUT", 300))
+            res = next((m["result"] for m in msgs if "result" in m), None)
+            if res is None:
+                raise RuntimeError(f"run process ended with code {code} without a result")
+        else:
+            res = mod.run_plan(plan)
         res.setdefault("plan", plan)
         res["wall"] = time.monotonic() - t0
         return res
